@@ -44,9 +44,35 @@ def one_iter(loop):
     loop.run_forever()
 
 
-def settle(loop, span=1.0, limit=2000):
-    """run loop iterations until nothing is ready (timers within `span` may fire)"""
-    return loop.run_quiet(span)
+class Livelock(Exception):
+    """the loop keeps finding ready callbacks without the virtual clock moving (busy loop)"""
+
+
+def run_quiet(loop, span, max_iters=6000):
+    """loop.run_quiet(span) with a bound on the number of loop iterations: a zero-time busy loop (e.g. a
+    Watch loop whose event is never cleared) would otherwise spin forever.  Same semantics as
+    harness.vloop: 'quiescent' when nothing is ready and no timer is left, 'horizon' when the next timer
+    lies beyond now + span; the clock jumps to the next timer when nothing is ready."""
+    horizon = loop.time() + span
+    for _ in range(max_iters):
+        if not loop._ready:
+            whens = [h._when for h in loop._scheduled if not h._cancelled]
+            if not whens:
+                return 'quiescent'
+            when = min(whens)
+            if when > horizon:
+                return 'horizon'
+            if when > loop._vtime:
+                loop._vtime = when
+        one_iter(loop)
+    raise Livelock('%d loop iterations without becoming idle' % max_iters)
+
+
+def run_until(loop, t):
+    r = run_quiet(loop, max(0.0, t - loop.time()))
+    if loop._vtime < t:
+        loop._vtime = t
+    return r
 
 
 # ---- _status -----------------------------------------------------------------------------------------
@@ -180,7 +206,7 @@ def impl_watch_direct(cfg, vals, cmds):
                 for _ in range(int(p[1])):
                     one_iter(loop)
             elif p[0] == 'q':
-                loop.run_quiet(1.0)
+                run_quiet(loop, 1.0)
             elif p[0] == 'r':
                 k = int(p[1])
                 if k < len(ws) and ws[k][1].gate is not None and not ws[k][1].gate.done():
@@ -197,7 +223,7 @@ def impl_watch_direct(cfg, vals, cmds):
         # after the scenario: cancel everything, nothing may stay subscribed
         for t, _ in ws:
             t.cancel()
-        loop.run_quiet(1.0)
+        run_quiet(loop, 1.0)
         left = sum(len(c._events) for c in checks)
         errors = [type(vloop.outcome(t)[1]).__name__ for t, _ in ws if vloop.outcome(t)[0] == 'exc']
         return snaps, sent, left, errors + [str(u.get('message')) for u in loop.unhandled]
@@ -277,7 +303,7 @@ class E2E:
     def close(self):
         for t in self.tasks:
             t.cancel()
-        self.loop.run_quiet(0.0)
+        run_quiet(self.loop, 0.0)
 
 
 def impl_check_e2e(cfg, vals, names):
@@ -288,7 +314,7 @@ def impl_check_e2e(cfg, vals, names):
             c.set(ST[v])
         rig = E2E(loop, make_health(cfg, checks))
         outs = [rig.check(svc_name(n)) for n in names]
-        loop.run_quiet(5.0)
+        run_quiet(loop, 5.0)
         res = [o.get('res', ('pending',)) for o in outs]
         rig.close()
         return res
@@ -313,7 +339,7 @@ def impl_watch_e2e(cfg, vals, cmds, delays=None):
             elif p[0] == 'w':
                 ws.append(rig.watch(svc_name(int(p[1])), delays.get(str(len(ws)), 0) * TICK))
             elif p[0] == 'q':
-                loop.run_quiet(1.0)
+                run_quiet(loop, 1.0)
             elif p[0] == 'i':
                 for _ in range(int(p[1])):
                     one_iter(loop)
@@ -321,12 +347,12 @@ def impl_watch_e2e(cfg, vals, cmds, delays=None):
                 if int(p[1]) < len(ws):
                     ws[int(p[1])]['task'].cancel()
         # slow readers drain what was delivered
-        loop.run_quiet(400.0)
+        run_quiet(loop, 400.0)
         got = [[s for s, _ in w['got']] for w in ws]
         ends = [w['end'] for w in ws]
         for w in ws:
             w['task'].cancel()
-        loop.run_quiet(1.0)
+        run_quiet(loop, 1.0)
         left = sum(len(c._events) for c in checks)
         rig.close()
         return got, ends, left
@@ -403,7 +429,7 @@ def impl_sc(ttl, tmo, horizon, script, events):
             return cb
         for ev in events:
             t = ev[0]
-            loop.run_until(t * TICK)
+            run_until(loop, t * TICK)
             if ev[1] == 'call':
                 task = loop.create_task(c.__check__())
                 task.add_done_callback(done(len(callers)))
@@ -413,7 +439,7 @@ def impl_sc(ttl, tmo, horizon, script, events):
             else:
                 if ev[2] < len(callers):
                     cancel(ev[2])
-        loop.run_until(horizon * TICK)
+        run_until(loop, horizon * TICK)
         outs = []
         for i, task in enumerate(callers):
             o = vloop.outcome(task)
@@ -451,11 +477,11 @@ def impl_unsub(ttl, tmo, script, cancel_at, horizon, armed_first=True):
         w = loop.create_task(health.Watch(fs))
         if armed_first:
             loop.call_at(cancel_at * TICK, w.cancel)
-            loop.run_until(cancel_at * TICK)
+            run_until(loop, cancel_at * TICK)
         else:
-            loop.run_until(cancel_at * TICK)
+            run_until(loop, cancel_at * TICK)
             w.cancel()
-        loop.run_until(horizon * TICK)
+        run_until(loop, horizon * TICK)
         out = {
             'handler': vloop.outcome(w)[0],
             'log': [tuple(r) for r in fn.log],
@@ -491,7 +517,7 @@ def impl_sc_e2e(case):
         rig = E2E(loop, health)
         calls, watches, sets = [], [], []
         for ev in case['events']:
-            loop.run_until(ev[0] * TICK)
+            run_until(loop, ev[0] * TICK)
             if ev[1] == 'check':
                 o = rig.check(svc_name(ev[2]))
                 o['name'] = ev[2]
@@ -512,7 +538,7 @@ def impl_sc_e2e(case):
                 if fns[ev[2]] is None:
                     checks[ev[2]].set(ST[ev[3]])
                     sets.append((ev[0], ev[2], ev[3]))
-        loop.run_until(case['horizon'] * TICK)
+        run_until(loop, case['horizon'] * TICK)
         res = {
             'calls': [{'name': o['name'], 't0': round(o['t0'] / TICK) if 't0' in o else None,
                        't1': round(o['t1'] / TICK) if 't1' in o else None,
@@ -527,7 +553,7 @@ def impl_sc_e2e(case):
         # unsubscribe everybody: handlers must finish, nothing may stay subscribed or polling
         for o in watches:
             o['task'].cancel()
-        loop.run_quiet(2.0)
+        run_quiet(loop, 2.0)
         res['left_events'] = sum(len(c._events) for c in checks)
         res['left_polls'] = sum(1 for c in checks if getattr(c, '_poll_task', None) is not None)
         rig.close()
